@@ -554,9 +554,15 @@ def run_amrgrid(c, tier, rng, rd, exe):
             continue          # a periodic axis has at least two cells (one cell that is its own neighbour is not claimed)
         if G[0] * G[1] * G[2] * 4 ** sum(per) > 4700:
             continue          # the unfolded lattice of Layer A stays small
+        # the first trees of every run have a periodic axis AND a refinement jump (a fine cell next to a coarser one):
+        # the wrap-around into / out of a coarser neighbour is the rarest path of the traversal
+        jump = len(set(len(l[1]) for l in leaves)) > 1
+        if len(cases) < (6 if tier == "quick" else 30) and not (any(per) and jump):
+            continue
         frame = rng.choice(["dyadic", "dyadic_aniso", "generic"])
         lv = []
         kapfine = [0] * (G[0] * G[1] * G[2])
+        levfine = [0] * (G[0] * G[1] * G[2])
         for l in leaves:
             L, x = node_coords(l)
             kap = rng.choice([1, 1, 2] if any(per) else [0, 1, 1, 2])
@@ -566,12 +572,21 @@ def run_amrgrid(c, tier, rng, rd, exe):
                 for iy in range(x[1] * s, (x[1] + 1) * s):
                     for iz in range(x[2] * s, (x[2] + 1) * s):
                         kapfine[ix * G[1] * G[2] + iy * G[2] + iz] = kap
+                        levfine[ix * G[1] * G[2] + iy * G[2] + iz] = L
         pts = amr_points(rng, nb, Dl, leaves, 40, boundary_ok=False)
         rays = []
         tries = 0
-        while len(rays) < nray and tries < 4000:
+        while len(rays) < nray and tries < 8000:
             tries += 1
             p, d = gen_ray(rng, G, per, allow_inface=False)
+            if any(per) and jump and len(rays) % 2 == 0 and tries < 3000:
+                # every second ray of such a tree starts in a cell of the deepest level, runs in the positive direction
+                # of a periodic axis and has a component along another axis (it leaves the fine region sideways)
+                cell = [min(p[k] // 4, G[k] - 1) for k in range(3)]
+                if levfine[cell[0] * G[1] * G[2] + cell[1] * G[2] + cell[2]] != Dl:
+                    continue
+                if not any(per[k] and d[k] > 0 and any(d[j] != 0 for j in range(3) if j != k) for k in range(3)):
+                    continue
             N, kapU, pU = unfold(G, per, p, d, kapfine)
             if N[0] * N[1] * N[2] > 4700:
                 continue
@@ -637,6 +652,12 @@ def run_amrgrid(c, tier, rng, rd, exe):
         if sorted(g["cells"]) != want or g["ncell"] != len(want):
             c.violation("amrgrid:cells:%s" % sig, "the cells of the AMRDensityGrid are not the leaves of the tree (each exactly once): %d cells, %d leaves" % (
                 len(g["cells"]), len(want)), info)
+            continue
+        badb = next((x for x in g.get("blocks", []) if sorted(x[2]) != sorted(g["cells"][x[0]:x[1]])), None)
+        if badb is not None:
+            c.violation("amrgrid:block-enumeration:%s" % sig, "the block [%d, %d) of the cell range, traversed through the job market "
+                        "(DensityGrid::set_densities), touches %d cells, the enumeration has %d there: not every cell of the block "
+                        "exactly once and no other" % (badb[0], badb[1], len(badb[2]), badb[1] - badb[0]), info)
             continue
         if abs(g["volsum"] - 1.) > 1e-12:
             c.violation("amrgrid:volume:%s" % sig, "cell volumes sum to %r times the box volume" % g["volsum"], info)
